@@ -1,16 +1,25 @@
 /-
   C10 (area toast) — nothing in pgdump/toast.go faults, for every byte string, every pointer, every chunk list.
-  The models are those of toast.go with fixes/toast/01..04 applied (Model/Toast.lean, Model/Pglz.lean, Model/Lz4.lean);
+  The models are those of toast.go with fixes/toast/01..06, 20..22 applied (Model/Toast.lean, Model/Pglz.lean, Model/Lz4.lean);
   their slice/index primitives check against the length of the slice they are given, so "no fault" means: no Go panic
   (index, slice bounds, division by zero in `i % offset`) AND no read beyond the slice.
 
   Resource clause ("does not run or allocate beyond a small multiple of what the input size warrants"), second half of
-  this file: SIZE of the results for arbitrary bytes (`C10_size_*`; the up-front `make([]byte, 0, allocHint(...))` is
-  outside the model: family `toastmut` / `resource` watch the allocation) and TERMINATION within len(stream) iterations
-  (`C10_fuel_*`: the model's iteration budget is never what ends a loop).  What the input "warrants" for a compressed
-  value is its declared raw size as far as the format can deliver it: an LZ4 block expands at most 255 times (one
-  extension byte = 255 output bytes), so 256 KiB of stream legitimately warrant 64 MiB of value; ReassembleTOAST never
-  returns more than va_rawsize − 4 + the chunk bytes, on any of its paths (after fix toast/20 also on the zlib fallback).
+  this file: SIZE of the results for arbitrary bytes, as bounds IN THE INPUT SIZE (`C10_size_*`).  The raw size a pointer
+  declares is 4 bytes of an 18-byte datum the caller hands in — an attacker's number, not a measure of the input — so the
+  bounds "≤ rawSize" are stated but are not what limits the cost; what does is the stream:
+      pglz   ≤  91 · len(stream)   (a 3-byte tag stands for at most 18 + 255 = 273 bytes)
+      LZ4    ≤ 255 · len(stream)   (one length-extension byte stands for 255 bytes)
+      zlib fallback (a format PostgreSQL never writes to TOAST) ≤ min(rawSize, 255 · len(stored)) since fix toast/22
+      ReassembleTOAST ≤ 255 · (chunk bytes of the value), on every path, for every pointer.
+  These ratios are properties of the two formats (PostgreSQL itself stores 64 MiB of zeros as 256 KiB of LZ4), so a tool
+  that returns the original value cannot stay below them: they are what "the input warrants" here, and the claim says so.
+  ALLOCATION is not in the model: since fix toast/22 each decompressor allocates its result once, at exactly the size
+  it produces (a counting pass over the stream first), the zlib fallback inflates twice for the same reason; family
+  `resource` (cases lz4amp / pglzamp / zbomb with va_rawsize = 0xFFFFFFFF) and `toastmut` measure
+  allocation ≤ 2·output + 8·input + 1 MiB on the real code.
+  TERMINATION: `C10_terminates_*`: the loops in which an exhausted iteration budget is a FAULT give the model's (fault-free)
+  answer with the budget len(stream)+1, so the Go loops leave their condition within that many iterations.
 -/
 import PgVerif.Proofs.ToastTotal
 import PgVerif.Proofs.ToastSize
@@ -62,26 +71,41 @@ theorem C10_total_getTOASTVerboseInfo (relid : Nat) (data : Bytes) : ∃ r, getT
 
 /-! ## resource clause: sizes and termination, arbitrary bytes -/
 
-/-- decompressPGLZ never returns more than `rawSize` bytes, for every stream. -/
+/-- decompressPGLZ, for every stream and every claimed raw size: at most `rawSize` bytes, and — a bound in the input — at
+most 91 bytes per stream byte (a 3-byte tag yields at most 273 bytes: the ratio of the pglz format). -/
 theorem C10_size_decompressPGLZ (data : Bytes) (rawSize : Nat) (d : Bytes)
-    (h : Pglz.decompressPGLZ data rawSize = .ok (some d)) : d.length ≤ rawSize :=
-  Proofs.ToastSize.decompressPGLZ_len data rawSize d h
+    (h : Pglz.decompressPGLZ data rawSize = .ok (some d)) : d.length ≤ rawSize ∧ d.length ≤ 91 * data.length :=
+  ⟨Proofs.ToastSize.decompressPGLZ_len data rawSize d h, Proofs.ToastSize.decompressPGLZ_ratio data rawSize d h⟩
 
 /-- decompressLZ4, for every block: the result has at most `rawSize + len(stream)` bytes (matches stop at rawSize,
-literals are copied without looking at it) and at most `255 · len(stream)` bytes (the expansion the LZ4 block format can
-reach: one length-extension byte stands for 255 output bytes — a property of the format, not of this decoder). -/
+literals are copied without looking at it) and — a bound in the input — at most `255 · len(stream)` bytes (the expansion
+the LZ4 block format can reach: one length-extension byte stands for 255 output bytes — a property of the format, not of
+this decoder). -/
 theorem C10_size_decompressLZ4 (data : Bytes) (rawSize : Nat) (d : Bytes)
     (h : Lz4.decompressLZ4 data rawSize = .ok (some d)) : d.length ≤ rawSize + data.length ∧ d.length ≤ 255 * data.length :=
   Proofs.ToastSize.decompressLZ4_len data rawSize d h
 
-/-- ReassembleTOAST, for every chunk list, value id and pointer: the value it returns is never longer than the chunk
-bytes it was given for that value plus — for a compressed pointer — va_rawsize − 4.  `hz` is io.LimitReader's contract
-for the zlib fallback (`zlib d n` = at most `n` bytes; fix toast/20 — before it the fallback was an unbounded
-`io.ReadAll`: 256 KiB of chunk data → 203 MB, known finding C10-zlib-bomb). -/
+/-- ReassembleTOAST, for every chunk list, value id and pointer: the value it returns is never longer than 255 times the
+chunk bytes it was given for that value — WHATEVER the pointer declares (va_rawsize = 2^32 − 1 included) — and never longer
+than those chunk bytes plus, for a compressed pointer, va_rawsize − 4.  `hz` is io.LimitReader's contract for the zlib
+fallback (`zlib d n` = at most `n` bytes); the limit the fallback is given is min(va_rawsize − 4, 255 · stored bytes)
+(fixes toast/20 and toast/22 — the first alone bounded it by va_rawsize only: pointer 0xFFFFFFFF, 256 KiB of chunk data →
+203 MB; before both it was an unbounded `io.ReadAll`, known finding C10-zlib-bomb). -/
 theorem C10_size_reassembleTOAST (zlib : Bytes → Nat → Option Bytes) (hz : ZlibBounded zlib) (chunks : List Chunk)
     (valueID : Nat) (ptr : Option Ptr) (r : Bytes) (h : reassembleTOAST zlib chunks valueID ptr = .ok (some r)) :
+    r.length ≤ 255 * Proofs.ToastSize.chunkBytes chunks valueID ∧
     r.length ≤ (match ptr with | some p => p.rawSize - 4 | none => 0) + Proofs.ToastSize.chunkBytes chunks valueID :=
-  Proofs.ToastSize.reassembleTOAST_len zlib hz chunks valueID ptr r h
+  have := Proofs.ToastSize.reassembleTOAST_len zlib hz chunks valueID ptr r h
+  ⟨this.2, this.1⟩
+
+/-- the ratio 255 of `C10_size_decompressLZ4` / `C10_size_reassembleTOAST` is the format's, not slack of the proof: the
+13-byte LZ4 block `1F 41 0100 FF×8 00` with a declared raw size of 2^32 − 5 gives 1 + 19 + 8·255 = 2060 bytes (158 per
+stream byte); with n extension bytes instead of 8 the quotient tends to 255. -/
+example :
+    (match Lz4.decompressLZ4 [0x1F, 0x41, 0x01, 0x00, 255, 255, 255, 255, 255, 255, 255, 255, 0] 4294967291 with
+     | .ok (some r) => r.length
+     | _ => 0) = 2060 := by
+  decide +kernel
 
 /-- the hypothesis of `C10_size_reassembleTOAST` is satisfiable: a fallback that always fails, and one that returns a
 prefix of its input -/
@@ -89,14 +113,35 @@ example : ZlibBounded (fun _ _ => none) := fun _ _ _ h => by cases h
 example : ZlibBounded (fun d n => some (d.take n)) := fun d n z h => by
   cases h; simp only [List.length_take]; omega
 
-/-- decompressPGLZ terminates by consuming input: with ANY iteration budget above len(stream) the outer loop gives the
-same result, so the model's budget `len(stream)+1` is never what stops it (every outer iteration consumes the control
-byte).  Together with `C10_total_decompressPGLZ`: the Go loop ends within len(stream) iterations on every input. -/
+/-- decompressPGLZ TERMINATES within len(stream)+1 iterations of its outer loop, for every stream and raw size:
+`Pglz.decompressB` is the same loop in which using up the iteration budget while the Go loop condition
+(`pos < len(data) && len(result) < rawSize`) still holds is a FAULT (`.budget`); run with the budget len(stream)+1 it gives
+exactly the model's answer — and the model never faults (`C10_total_decompressPGLZ`), so the budget fault is unreachable:
+the condition is false after at most len(stream)+1 iterations (every iteration consumes at least the control byte). -/
+theorem C10_terminates_decompressPGLZ (data : Bytes) (rawSize : Nat) (h4 : ¬ data.length < 4) :
+    Pglz.decompressPGLZ data rawSize = (do let r ← Pglz.decompressB rawSize (data.length + 1) data []; pure (some r)) ∧
+    ∃ r, (do let r ← Pglz.decompressB rawSize (data.length + 1) data []; pure (some r) : M (Option Bytes)) = .ok r := by
+  have h := Proofs.ToastSize.decompressPGLZ_strict data rawSize h4
+  exact ⟨h, by rw [← h]; exact decompressPGLZ_total data rawSize⟩
+
+/-- decompressLZ4 likewise (`Lz4.loopB`; every iteration of the main loop consumes the token byte). -/
+theorem C10_terminates_decompressLZ4 (data : Bytes) (rawSize : Nat) (h1 : ¬ data.length < 1) :
+    Lz4.decompressLZ4 data rawSize = Lz4.loopB rawSize (data.length + 1) data [] ∧
+    ∃ r, Lz4.loopB rawSize (data.length + 1) data [] = .ok r := by
+  have h := Proofs.ToastSize.decompressLZ4_strict data rawSize h1
+  exact ⟨h, by rw [← h]; exact decompressLZ4_total data rawSize⟩
+
+/-- the budget fault of `decompressB` is real (the twin is not the lenient loop under another name): with a budget of 1 a
+two-group stream is not finished -/
+example : Pglz.decompressB 100 1 [0, 1, 2, 3, 4, 5, 6, 7, 8, 0, 9] [] = .error .budget := by rfl
+
+/-- budget independence (the weaker statement the termination theorems replace, kept because Proofs use it): with ANY
+iteration budget above len(stream) the model's outer loop gives the same result. -/
 theorem C10_fuel_decompressPGLZ (data : Bytes) (rawSize g : Nat) (hg : data.length < g) (h4 : ¬ data.length < 4) :
     Pglz.decompressPGLZ data rawSize = (do let r ← Pglz.decompress rawSize g data []; pure (some r)) :=
   Proofs.ToastSize.decompressPGLZ_fuel data rawSize g hg h4
 
-/-- decompressLZ4 likewise: every iteration of its main loop consumes the token byte. -/
+/-- decompressLZ4 likewise (budget independence). -/
 theorem C10_fuel_decompressLZ4 (data : Bytes) (rawSize g : Nat) (hg : data.length < g) (h1 : ¬ data.length < 1) :
     Lz4.decompressLZ4 data rawSize = Lz4.loop rawSize g data [] :=
   Proofs.ToastSize.decompressLZ4_fuel data rawSize g hg h1
